@@ -374,7 +374,12 @@ func runC18Schedule(t *testing.T, rng *rand.Rand, rec *sim.Rec, tier string, cas
 	timers := map[string]time.Time{"allocation": a.Exp, "permission": a.Perms[p1.Addr.IP.String()], "channel": a.Chans[0].Exp}
 	which := pick(rng, []string{"allocation", "permission", "channel"})
 	at := timers[which]
-	point := pick(rng, []string{"perm+", "alloc-", "auth", "permission-handler", "generator", "listener-write", "tie"})
+	point := pick(rng, []string{"perm+", "alloc-", "auth", "permission-handler", "generator", "listener-write", "tie", "tie-bind"})
+	tieBind := point == "tie-bind"
+	if tieBind {
+		point, which = "tie", "allocation"
+		at = timers[which]
+	}
 	// requests are sent raw from here on: their outcome is not under test (MAY), only survival is
 	sendRaw := func(cl *sim.RawClient, method uint16, build func(b *wire.Builder)) {
 		tid := w.NewTID()
@@ -434,10 +439,22 @@ func runC18Schedule(t *testing.T, rng *rand.Rand, rec *sim.Rec, tier string, cas
 				b.AddXorAddr(wire.AttrXORPeerAddress, p1.Addr.IP, p1.Addr.Port)
 			})
 		default:
-			sendRaw(c, pick(rng, []uint16{wire.MethodRefresh, wire.MethodCreatePermission}), func(b *wire.Builder) {
-				b.AddU32(wire.AttrLifetime, 600)
-				b.AddXorAddr(wire.AttrXORPeerAddress, p2.Addr.IP, p2.Addr.Port)
-			})
+			if tieBind {
+				// a ChannelBind that has to create the permission of a new peer, with a slow
+				// permission-created callback, lands on the allocation's expiry instant
+				w.SetEventYield("perm+", true)
+				w.SetEventDelay("perm+", time.Second)
+				sendRaw(c, wire.MethodChannelBind, func(b *wire.Builder) {
+					b.Add(wire.AttrChannelNumber, []byte{0x40, 0x02, 0, 0})
+					b.AddXorAddr(wire.AttrXORPeerAddress, p2.Addr.IP, p2.Addr.Port)
+				})
+				rec.FP("schedule/tie/channelbind-new-peer")
+			} else {
+				sendRaw(c, pick(rng, []uint16{wire.MethodRefresh, wire.MethodCreatePermission}), func(b *wire.Builder) {
+					b.AddU32(wire.AttrLifetime, 600)
+					b.AddXorAddr(wire.AttrXORPeerAddress, p2.Addr.IP, p2.Addr.Port)
+				})
+			}
 		}
 		// data in both directions at the same instant
 		_ = c.SendRaw(c.SendIndicationBytes(p1.Addr, []byte("tie")))
@@ -449,6 +466,7 @@ func runC18Schedule(t *testing.T, rng *rand.Rand, rec *sim.Rec, tier string, cas
 	w.ServerUDP[0].WriteHook = nil
 	w.AuthHook, w.PermHook, w.Gen.Delay = nil, nil, 0
 	w.SetEventDelay("perm+", 0)
+	w.SetEventYield("perm+", false)
 	w.SetEventDelay("alloc-", 0)
 	w.Net.TakeSendLog()
 	for _, cl := range w.Clients {
